@@ -130,11 +130,13 @@ Specific(e) ==
     [] e[1] = "read" ->
         [TruncatedAtEnd    |-> Ok(e) => Len(e[4][2]) = Count(e),
          TruncationWarning |-> (Ok(e) /\ Truncated(e)) => e[6] > 0,
+         WarningMeansTruncation |-> (e[6] > 0 /\ PosClass(e) = "in") => Truncated(e),
          \* as many of the returned bytes as the file has at those positions are the bytes last written
          ReadsLastWritten  |-> Ok(e) => \A i \in 1..Min(Len(e[4][2]), Count(e)) : e[4][2][i] = st.mem[Here(e) + i]]
     [] e[1] = "write" ->
         [TruncatedAtEnd    |-> Ok(e) => e[4][2] = <<Count(e)>>,
-         TruncationWarning |-> (Ok(e) /\ Truncated(e)) => e[6] > 0]
+         TruncationWarning |-> (Ok(e) /\ Truncated(e)) => e[6] > 0,
+         WarningMeansTruncation |-> (e[6] > 0 /\ PosClass(e) = "in") => Truncated(e)]
     [] e[1] = "slice" ->
         [SliceCoversClippedRange |->
             Ok(e) => LET rg == SliceRg(e)  nlen == e[4][2][2]  ad == e[4][2][3] IN
